@@ -172,6 +172,10 @@ func (v *vPart) expand(replica string) error {
 // keep -- computed from its own record of (offset, epoch), not from any epoch cache.
 
 type vSimLeader struct {
+	budget int   // entries the real follower may still be given (a scheduled fetch sets it)
+	hwSent int64 // the HW told to the real follower at its last scheduled fetch
+	gated  bool  // serve data only against the budget
+	served chan int64
 	v      *vPart
 	name   string
 	log    commitlog.CommitLog
@@ -181,6 +185,7 @@ type vSimLeader struct {
 	mu     sync.Mutex
 	subs   []*nats.Subscription
 	asked  []vM // leader-offset requests it answered
+	onFetch func(reported int64) // called (under the lock) when a scheduled fetch arrives, before the HW is read
 }
 
 func vNewSimLeader(v *vPart, name string) *vSimLeader {
@@ -190,7 +195,7 @@ func vNewSimLeader(v *vPart, name string) *vSimLeader {
 	if err != nil {
 		panic(err)
 	}
-	sl := &vSimLeader{v: v, name: name, log: l, hw: -1}
+	sl := &vSimLeader{v: v, name: name, log: l, hw: -1, hwSent: -1, served: make(chan int64, 16)}
 	s1, _ := v.nc.Subscribe(v.p.getLeaderOffsetRequestInbox(), sl.onOffsetRequest)
 	s2, _ := v.nc.Subscribe(v.p.getReplicationRequestInbox(), sl.onReplicationRequest)
 	sl.subs = []*nats.Subscription{s1, s2}
@@ -257,8 +262,25 @@ func (sl *vSimLeader) onReplicationRequest(m *nats.Msg) {
 	buf := new(bytes.Buffer)
 	proto.WriteReplicationResponseHeader(buf)
 	binary.Write(buf, proto.Encoding, sl.epoch)
-	binary.Write(buf, proto.Encoding, sl.hw)
 	newest := sl.log.NewestOffset()
+	if sl.gated {
+		if sl.budget < 0 {
+			// not a scheduled fetch: nothing new, the HW it already knows
+			binary.Write(buf, proto.Encoding, sl.hwSent)
+			m.Respond(buf.Bytes())
+			return
+		}
+		if lim := req.Offset + int64(sl.budget); lim < newest {
+			newest = lim
+		}
+		sl.budget = -1
+		if sl.onFetch != nil {
+			sl.onFetch(req.Offset)
+		}
+		sl.hwSent = sl.hw
+		defer func() { sl.served <- req.Offset }()
+	}
+	binary.Write(buf, proto.Encoding, sl.hw)
 	if req.Offset < newest {
 		rd, err := sl.log.NewReader(req.Offset+1, true)
 		if err == nil {
@@ -286,6 +308,7 @@ func (sl *vSimLeader) lead() (uint64, error) {
 	defer cancel()
 	sl.mu.Lock()
 	sl.epoch = 1 << 62 // answer requests as leader from now on; the real epoch is set below
+	sl.budget = -1
 	sl.mu.Unlock()
 	f, err := sl.v.srv.s.getRaft().applyOperation(ctx, op, nil)
 	if err != nil {
@@ -320,4 +343,12 @@ func (sl *vSimLeader) handBack() (uint64, error) {
 	sl.v.p = sl.v.srv.waitLeader(sl.v.stream, 0)
 	_, epoch := sl.v.p.GetLeader()
 	return epoch, nil
+}
+
+// wakeFollower tells the real server that the partition has new data (what a leader does).
+func (sl *vSimLeader) wakeFollower() {
+	me := sl.v.srv.s.config.Clustering.ServerID
+	data, _ := proto.MarshalPartitionNotification(&proto.PartitionNotification{Stream: sl.v.stream, Partition: 0})
+	sl.v.nc.Publish(sl.v.srv.s.getPartitionNotificationInbox(me), data)
+	sl.v.nc.Flush()
 }
